@@ -504,15 +504,21 @@ pub fn run_across_threads(tc: &dtr::TestCase, answer: &[(String, V)], on_first: 
     hooks::set_seed_override(Some(1));
     let mut driver = ConstDriver { outs: answer.iter().filter_map(|(n, v)| tc.signals.iter().find(|s| &s.name == n).map(|s| (s, v.to_output()))).collect() };
     let mut lines = vec![];
+    // every call into the subject runs under the step watchdog of the thread it runs on
     let step = |it: &mut dtr::DataRowIterator<'_, '_, ConstDriver<'_>>| -> (String, bool) {
-        let item = item_of(it.next());
-        let end = item == ObsItem::End;
-        let mut v: Vec<(String, i64)> = it.vars().into_iter().collect();
-        v.sort();
-        (format!("{} vars {:?}", item.brief(), v), end)
+        match guard(200_000, || {
+            let item = item_of(it.next());
+            let end = item == ObsItem::End;
+            let mut v: Vec<(String, i64)> = it.vars().into_iter().collect();
+            v.sort();
+            (format!("{} vars {:?}", item.brief(), v), end)
+        }) {
+            Ok(x) => x,
+            Err(c) => (format!("{c:?}"), true),
+        }
     };
     let r = std::panic::catch_unwind(std::panic::AssertUnwindSafe(|| {
-        let Ok(mut it) = tc.try_iter(&mut driver) else {
+        let Ok(Ok(mut it)) = guard(200_000, || tc.try_iter(&mut driver)) else {
             lines.push("construction failed".to_string());
             return;
         };
